@@ -81,7 +81,6 @@ def gen(rng, n, tier):
                     y = fl(float(x) + (w0 if isreg else (rng.uniform(0.2, 2) if not mixed else (0.5 if k else 1.75)))); b.append([x, y]); x = y
                 axes.append(b)
             if kind == "polar_map":
-                import math
                 x = fl(rng.choice([0.0, 0.5])); r = []
                 for _ in range(rng.randint(1, 4)):
                     y = fl(float(x) + rng.uniform(0.3, 2)); r.append([x, y]); x = y
